@@ -457,6 +457,29 @@ let cmd_cert (arg : string) : string =
     "OK " ^ String.concat " | " outs
   | _ -> failwith "cert args"
 
+(* ---------- config ---------- *)
+let z_of_string (s : string) : z =
+  if String.length s > 0 && s.[0] = '-' then
+    (match n_of_string (String.sub s 1 (String.length s - 1)) with N0 -> Z0 | Npos p -> Zneg p)
+  else (match n_of_string s with N0 -> Z0 | Npos p -> Zpos p)
+
+let string_of_z (x : z) : string =
+  match x with Z0 -> "0" | Zpos p -> string_of_n (Npos p) | Zneg p -> "-" ^ string_of_n (Npos p)
+
+(* cfg <File|Env> <key> <z> *)
+let cmd_cfg (arg : string) : string =
+  match String.split_on_char ' ' (String.trim arg) with
+  | [src; key; zs] ->
+    let s = if src = "File" then File else Env in
+    let k = match key with
+      | "port" -> CPort | "batch_size" -> CBatch | "status_interval" -> CStatus
+      | "health_check_port" -> CHealth | "fault_percentage" -> CFault | "num_workers" -> CWorkers
+      | _ -> failwith "key" in
+    (match effective s k (z_of_string zs) with
+     | Running v -> "RUN " ^ string_of_z v
+     | Refused -> "REFUSED")
+  | _ -> failwith "cfg args"
+
 let model_srv : server option ref = ref None
 
 let stats_totals (evs : sev list) : string =
@@ -532,6 +555,7 @@ let dispatch (line : string) : string =
   | "srep" -> cmd_srep rest
   | "serve" -> cmd_serve rest
   | "signer" -> cmd_signer rest
+  | "cfg" -> cmd_cfg rest
   | "ltk" -> cmd_ltk rest
   | "cert" -> cmd_cert rest
   | "stats" -> cmd_stats rest
